@@ -513,6 +513,9 @@ func rtTypeOf(c px.Context, v px.Value) core.Result {
 		return px.Undef
 	}); o.Kind != "value" {
 		cls, _ := liveClass(v, 0)
+		if cls == "leaf-outside-quantifier" {
+			return core.Result{Out: "leaf", Pred: "n/a", Tags: []string{"rt-typeof", "leaf-outside-quantifier"}}
+		}
 		if cls == "" {
 			cls = "infer-" + o.Kind
 		}
@@ -801,6 +804,11 @@ func gen(g *core.G) {
 	for i := 0; i < 6000*g.Scale; i++ {
 		t := syn.GenTypeText(g.Rng, 1+g.Rng.Intn(3))
 		g.Emit("@rt-type " + hx(t) + " " + syn.OracleSexp(t))
+	}
+	// the modelled fragment: valid by construction, model and implementation compared (printed text and round trip verdict)
+	for i := 0; i < 8000*g.Scale; i++ {
+		t := syn.GenFragType(g.Rng, 1+g.Rng.Intn(3))
+		g.Emit("rt-type " + hx(t) + " " + syn.OracleSexp(t))
 	}
 	// random literal values; inferred types of values
 	for i := 0; i < 6000*g.Scale; i++ {
